@@ -318,3 +318,38 @@ for _name in ("normal", "lognormal", "log-normal"):
 # the constructors of the result objects (contracts/ctor_hvsr.py): a new HvsrTraditional accepts every window (the statistics of a fresh result are over all windows)
 import contracts.ctor_hvsr as _CTOR
 TASKS += [t for t in _CTOR.TASKS if "HvsrTraditional.__init__" in t.label]
+
+# ---------------------------------------------------------------------------------------------------------------------
+# _distribution_factory on its executed body: for every spelling (upper / lower case alike) and both calculations the pair handed out is
+# (PRE_PROCESS_FUNCTION_MAP[canonical][calculation], POST_PROCESS_FUNCTION_MAP[canonical][calculation]) - the tables symbolic, their entries decided structurally above -
+# and anything else is refused with NotImplementedError.
+from pyvc.core import DictV as _DictV5, StrV as _StrV5, NONE as _NONE5
+_PRE_T = z3.Function("PRE_TABLE", I, I, I)        # (distribution: 0 normal / 1 lognormal, calculation: 0 mean / 1 std) -> function id
+_POST_T = z3.Function("POST_TABLE", I, I, I)
+_CAN = {"normal": 0, "lognormal": 1}
+_CALC = {"mean": 0, "std": 1}
+
+
+def _table(fn):
+    return _DictV5({d: _DictV5({c: fn(z3.IntVal(_CAN[d]), z3.IntVal(_CALC[c])) for c in _CALC}, owner="module") for d in _CAN}, owner="module")
+
+
+def _df_inputs(spelling, calc):
+    def mk(ex, st):
+        st.env["distribution"] = _StrV5(spelling)
+        st.env["calculation"] = _StrV5(calc)
+        return []
+    return mk
+
+
+_DF_ENV = {"DISTRIBUTION_MAP": DISTRIBUTION_MAP, "PRE_PROCESS_FUNCTION_MAP": _table(_PRE_T), "POST_PROCESS_FUNCTION_MAP": _table(_POST_T)}
+for _sp, _canon in (("normal", "normal"), ("Normal", "normal"), ("lognormal", "lognormal"), ("log-normal", "lognormal"), ("LogNormal", "lognormal"), ("Log-Normal", "lognormal")):
+    for _calc in ("mean", "std"):
+        _c = Contract(qual="hvsrpy.statistics._distribution_factory", params=["distribution", "calculation"], ghost={"PRE": _PRE_T, "POST": _POST_T}, make_inputs=_df_inputs(_sp, _calc),
+                      ensures=[f"result[0] == PRE({_CAN[_canon]}, {_CALC[_calc]}) and result[1] == POST({_CAN[_canon]}, {_CALC[_calc]})"], modifies=[],
+                      notes="the transformation before and after the estimator are the table entries of the canonical distribution and of the calculation asked for")
+        TASKS.append(FunctionTask(_c, module_env=_DF_ENV, label=f"hvsrpy.statistics._distribution_factory[{_sp},{_calc}]", clauses=["log-space for lognormal under every spelling"]))
+for _sp, _calc in (("gamma", "mean"), ("normal", "median")):
+    _c = Contract(qual="hvsrpy.statistics._distribution_factory", params=["distribution", "calculation"], make_inputs=_df_inputs(_sp, _calc),
+                  raises={"NotImplementedError": "True"}, ensures=[], modifies=[])
+    TASKS.append(FunctionTask(_c, module_env=_DF_ENV, label=f"hvsrpy.statistics._distribution_factory[{_sp},{_calc}: refused]", clauses=["an unknown distribution or calculation is refused"]))
